@@ -33,6 +33,7 @@ type Scenario struct {
 	TimerBudget int
 	MaxSteps    int
 	Symmetric   []string // see vsched.Config.Symmetric
+	StartMs     int64    // virtual clock start (unix ms); 0 = default
 	// New returns a fresh per-execution state.
 	New func() Execution
 }
@@ -64,7 +65,7 @@ func RunOne(sc *Scenario, prefix []int, trace bool) (obs string, f *Failure, rec
 	ch := &explore.Chooser{Prefix: prefix}
 	x := sc.New()
 	out = vsched.Run(vsched.Config{MaxSteps: sc.MaxSteps, TimerBudget: sc.TimerBudget,
-		Monitor: x.Monitor, Trace: trace, Symmetric: sc.Symmetric}, adapter{ch}, x.Main)
+		Monitor: x.Monitor, Trace: trace, Symmetric: sc.Symmetric, StartMs: sc.StartMs}, adapter{ch}, x.Main)
 	obs, f = x.Finish(out)
 	if ch.Diverge != "" && f == nil {
 		f = &Failure{Class: "", Msg: "NONDETERMINISM: " + ch.Diverge}
@@ -93,7 +94,7 @@ func Explore(c *lib.Ctx, sc *Scenario) {
 		run := func(ch *explore.Chooser) string {
 			x := sc.New()
 			out := vsched.Run(vsched.Config{MaxSteps: sc.MaxSteps, TimerBudget: sc.TimerBudget,
-				Monitor: x.Monitor, Symmetric: sc.Symmetric}, adapter{ch}, x.Main)
+				Monitor: x.Monitor, Symmetric: sc.Symmetric, StartMs: sc.StartMs}, adapter{ch}, x.Main)
 			obs, f := x.Finish(out)
 			if ch.Diverge != "" {
 				lib.Infra("scenario %s: replay diverged: %s", sc.Name, ch.Diverge)
